@@ -12,6 +12,7 @@
 # See the License for the specific language governing permissions and
 # limitations under the License.
 
+import calendar
 from datetime import datetime
 
 from cassandra.cqlengine import UnicodeMixin, ValidationError
@@ -65,9 +66,7 @@ class TimeUUIDQueryFunction(BaseQueryFunction):
         super(TimeUUIDQueryFunction, self).__init__(value)
 
     def to_database(self, val):
-        epoch = datetime(1970, 1, 1, tzinfo=val.tzinfo)
-        offset = get_total_seconds(epoch.tzinfo.utcoffset(epoch)) if epoch.tzinfo else 0
-        return int((get_total_seconds(val - epoch) - offset) * 1000)
+        return int(calendar.timegm(val.utctimetuple()) * 1e3 + val.microsecond / 1e3)
 
     def update_context(self, ctx):
         ctx[str(self.context_id)] = self.to_database(self.value)
